@@ -348,6 +348,43 @@ func vfWriteFail(prop, sub string, c any, err error) {
 	_ = os.WriteFile(name, b, 0o644)
 }
 
+// vfJournal records the case that is about to run, so that a fatal runtime error (which
+// cannot be recovered in-process) still leaves a replayable input behind.
+var (
+	vfJournalMu sync.Mutex
+	vfJournalF  *os.File
+)
+
+func vfJournal(prop, sub string, c any) {
+	out := os.Getenv("VERIF_OUT")
+	if out == "" || os.Getenv("VERIF_FUZZ") != "" {
+		return
+	}
+	cb, err := ejson.Marshal(c)
+	if err != nil {
+		return
+	}
+	b, _ := ejson.Marshal(vfFailFile{Property: prop, Sub: sub, Case: cb, Error: "process died while running this case (journal)"})
+	vfJournalMu.Lock()
+	defer vfJournalMu.Unlock()
+	if vfJournalF == nil {
+		f, err := os.Create(out + ".journal.json")
+		if err != nil {
+			return
+		}
+		vfJournalF = f
+	}
+	_, _ = vfJournalF.WriteAt(b, 0)
+	_ = vfJournalF.Truncate(int64(len(b)))
+}
+
+func vfScratchDir() string {
+	if out := os.Getenv("VERIF_OUT"); out != "" {
+		return filepath.Dir(out)
+	}
+	return os.TempDir()
+}
+
 // ---------------------------------------------------------------------------------
 // known findings
 
